@@ -6,7 +6,7 @@ use syn::fold::Fold;
 use syn::spanned::Spanned;
 use syn::visit::Visit;
 use syn::{
-    parse_quote, GenericArgument, GenericParam, Ident, Path, PathArguments, ReturnType, Type,
+    parse_quote, GenericArgument, GenericParam, Ident, PathArguments, ReturnType, Type,
     WhereClause, WherePredicate,
 };
 
@@ -39,7 +39,7 @@ pub fn filter_wheres<'a, Generic: GetPath + PartialEq>(
 }
 
 /// Extracts return type from the method return type.
-pub fn extract_return_type(ret_type: &ReturnType) -> &Path {
+pub fn extract_return_type(ret_type: &ReturnType) -> &Type {
     let ReturnType::Type(_, ty) = ret_type else {
         unreachable!()
     };
@@ -65,11 +65,12 @@ pub fn extract_return_type(ret_type: &ReturnType) -> &Path {
     };
     let args = &args.args;
     assert!(!args.is_empty());
-    let GenericArgument::Type(Type::Path(type_path)) = &args[0] else {
+    // The response does not have to be a path: `()`, tuples, arrays.. are valid as well.
+    let GenericArgument::Type(response_type) = &args[0] else {
         unreachable!()
     };
 
-    &type_path.path
+    response_type
 }
 
 /// Creates [`Option<WhereClause>`] based on the provided predicates.
